@@ -151,8 +151,6 @@ def dump(in_db, f, **options):
                 else:
                     frame.add_attribute("VFrameFormat", "StandardCAN")
 
-    db.enum_attribs_to_keys()
-
     # free signals are in special frame in dbc...
     if len(db.signals) > 0:
         free_signals_dummy_frame = canmatrix.Frame("VECTOR__INDEPENDENT_SIG_MSG")
@@ -161,6 +159,9 @@ def dump(in_db, f, **options):
         free_signals_dummy_frame.arbitration_id.id = 0x40000000
         free_signals_dummy_frame.signals = db.signals
         db.add_frame(free_signals_dummy_frame)
+
+    # after the free signals have their frame: their ENUM attributes are written as keys too
+    db.enum_attribs_to_keys()
 
     # shorten long environment variable names
     for env_var_name in copy.deepcopy(db.env_vars):
